@@ -2,7 +2,7 @@
 """Confirm a seeded change in its scratch worktree: suite passes with it, demo fails with it, demo passes without it."""
 import json, os, re, subprocess, sys
 prop, var = sys.argv[1], sys.argv[2]
-wt = f"/tmp/mut2-{prop}" if var in ("c", "d") else f"/tmp/mut-{prop}"
+wt = f"/tmp/mut3-{prop}" if var in ("e", "f") else (f"/tmp/mut2-{prop}" if var in ("c", "d") else f"/tmp/mut-{prop}")
 d = f"/tmp/mut-out/{prop}/{var}"
 meta = json.load(open(f"{d}/meta.json"))
 cmdtxt = meta["demo_cmd"]
